@@ -184,3 +184,371 @@ Example duration_examples :
   (exists c, parse_duration (s2r "1") = Err c) /\ (exists c, parse_duration (s2r ".s") = Err c) /\
   dur_string 3723500000000%Z = s2r "1h2m3.5s" /\ dur_string (-1500000)%Z = s2r "-1.5ms" /\ dur_string 0%Z = s2r "0s".
 Proof. repeat split; try (eexists; vm_compute; reflexivity); vm_compute; reflexivity. Qed.
+
+(* ------------------------------------------------------------------ *)
+(* Duration.String round trip *)
+
+Definition dec_val (D : str) (x : N) : N := fold_left (fun a c => a * 10 + (c - 48)) D x.
+Definition pow10 (k : nat) : N := 10 ^ N.of_nat k.
+
+Lemma pow10_S k : pow10 (S k) = 10 * pow10 k.
+Proof. unfold pow10. rewrite Nat2N.inj_succ, N.pow_succ_r'. reflexivity. Qed.
+Lemma pow10_0 : pow10 0 = 1.
+Proof. reflexivity. Qed.
+Lemma pow10_pos k : 0 < pow10 k.
+Proof. unfold pow10. apply N.neq_0_lt_0, N.pow_nonzero. lia. Qed.
+
+Lemma dec_val_shift D : forall x, dec_val D x = x * pow10 (length D) + dec_val D 0.
+Proof.
+  induction D as [|c D IH]; intros x; cbn [dec_val fold_left length].
+  - unfold pow10. cbn. lia.
+  - fold (dec_val D (x * 10 + (c - 48))). fold (dec_val D (0 * 10 + (c - 48))).
+    rewrite (IH (x * 10 + (c - 48))), (IH (0 * 10 + (c - 48))), pow10_S. lia.
+Qed.
+
+Lemma dec_val_mono D x : x <= dec_val D x.
+Proof. rewrite dec_val_shift. pose proof (pow10_pos (length D)). nia. Qed.
+
+Lemma is_dec_digit c : is_dec c -> is_digit c = true /\ (c =? 46) = false.
+Proof. unfold is_dec, is_digit. lia. Qed.
+
+Lemma digits_val_dec D : Forall is_dec D -> forall x, digits_val 10 D x = Some (dec_val D x).
+Proof.
+  induction 1 as [|c D Hc _ IH]; intros x; [reflexivity|]. cbn [digits_val dec_val fold_left].
+  unfold is_dec in Hc. assert (E : (c =? 95) = false) by lia. rewrite E.
+  replace c with (48 + (c - 48)) at 1 by lia. rewrite digit_of_dec by lia.
+  assert (E2 : (c - 48 <? 10) = true) by lia. rewrite E2. apply IH.
+Qed.
+
+Lemma some_inj (a b : N) : Some a = Some b -> a = b.
+Proof. intros [= H]. exact H. Qed.
+
+Lemma format_uint_val n : dec_val (format_uint n) 0 = n.
+Proof.
+  pose proof (digits_val_dec _ (format_uint_dec n) 0) as H.
+  unfold format_uint in *. rewrite dec_digits_val in H by apply format_fuel.
+  change (digits_val 10 [] n) with (Some n) in H. symmetry. exact (some_inj _ _ H).
+Qed.
+
+Lemma lead_int_digits D : Forall is_dec D -> forall x rest, starts_digit rest = false ->
+  dec_val D x <= two63 -> lead_int (D ++ rest) x = Some (dec_val D x, rest).
+Proof.
+  induction 1 as [|c D Hc _ IH]; intros x rest Hr Hb; cbn [app].
+  - destruct rest as [|c r]; [reflexivity|]. cbn [starts_digit] in Hr. cbn [lead_int]. rewrite Hr. reflexivity.
+  - cbn [lead_int dec_val fold_left] in *. fold (dec_val D (x * 10 + (c - 48))) in *.
+    destruct (is_dec_digit c Hc) as [Hd _]. rewrite Hd.
+    pose proof (dec_val_mono D (x * 10 + (c - 48))) as Hm.
+    assert (E1 : (two63 / 10 <? x) = false) by (unfold two63 in *; lia). rewrite E1.
+    assert (E2 : (two63 <? x * 10 + (c - 48)) = false) by lia. rewrite E2. apply IH; assumption.
+Qed.
+
+Lemma lead_frac_digits D : Forall is_dec D -> forall x k rest, starts_digit rest = false ->
+  dec_val D x <= (two63 - 1) / 10 ->
+  lead_frac (D ++ rest) x k false = (dec_val D x, k + N.of_nat (length D), rest).
+Proof.
+  induction 1 as [|c D Hc _ IH]; intros x k rest Hr Hb; cbn [app].
+  - cbn [length]. rewrite N.add_0_r. destruct rest as [|c r]; [reflexivity|]. cbn [starts_digit] in Hr.
+    cbn [lead_frac]. rewrite Hr. reflexivity.
+  - cbn [lead_frac dec_val fold_left] in *. fold (dec_val D (x * 10 + (c - 48))) in *.
+    destruct (is_dec_digit c Hc) as [Hd _]. rewrite Hd.
+    pose proof (dec_val_mono D (x * 10 + (c - 48))) as Hm.
+    assert (E1 : ((two63 - 1) / 10 <? x) = false) by (unfold two63 in *; lia). rewrite E1.
+    assert (E2 : (two63 <? x * 10 + (c - 48)) = false) by (unfold two63 in *; lia). rewrite E2.
+    rewrite IH by assumption. cbn [length]. rewrite Nat2N.inj_succ. f_equal. f_equal. lia.
+Qed.
+
+Lemma mod_pow10_S v p : v mod pow10 (S p) = 10 * ((v / 10) mod pow10 p) + v mod 10.
+Proof.
+  rewrite pow10_S. pose proof (pow10_pos p). rewrite N.mod_mul_r by lia. lia.
+Qed.
+
+Definition frac_text (D : str) : str := if nilb D then [] else 46 :: D.
+
+Lemma fmt_frac_spec p : forall v print acc, Forall is_dec acc -> print = negb (nilb acc) ->
+  exists D, fmt_frac p v print acc = (frac_text D, v / pow10 p) /\ Forall is_dec D /\
+            (length D <= p + length acc)%nat /\
+            dec_val D 0 * pow10 (p + length acc - length D) = (v mod pow10 p) * pow10 (length acc) + dec_val acc 0.
+Proof.
+  induction p as [|p IH]; intros v print acc Ha Hp.
+  - exists acc. cbn [fmt_frac]. rewrite Hp. rewrite pow10_0, N.div_1_r.
+    split; [unfold frac_text; destruct acc; reflexivity|]. split; [exact Ha|]. cbn [Nat.add]. split; [apply le_n|].
+    rewrite Nat.sub_diag. rewrite pow10_0, N.mod_1_r. lia.
+  - cbn [fmt_frac]. cbv zeta. set (dg := v mod 10).
+    assert (Hdg : dg < 10) by (apply N.mod_lt; lia).
+    assert (Hdiv : v / 10 / pow10 p = v / pow10 (S p)).
+    { rewrite pow10_S, N.div_div by (pose proof (pow10_pos p); lia). reflexivity. }
+    rewrite mod_pow10_S. fold dg.
+    destruct (print || negb (dg =? 0)) eqn:Epr.
+    + assert (Ha' : Forall is_dec ((48 + dg) :: acc)) by (constructor; [unfold is_dec; lia|exact Ha]).
+      destruct (IH (v / 10) true ((48 + dg) :: acc) Ha' eq_refl) as (D & E & HD & Hlen & Hval).
+      exists D. rewrite E, Hdiv. split; [reflexivity|]. split; [exact HD|]. cbn [length] in *. split; [lia|].
+      replace (S p + length acc - length D)%nat with (p + S (length acc) - length D)%nat by lia. rewrite Hval.
+      change (dec_val ((48 + dg) :: acc) 0) with (dec_val acc (0 * 10 + (48 + dg - 48))).
+      rewrite (dec_val_shift acc), pow10_S. replace (48 + dg - 48) with dg by lia. lia.
+    + assert (Hacc : acc = []).
+      { destruct print; [discriminate|]. destruct acc; [reflexivity|discriminate]. }
+      subst acc. assert (Hz : dg = 0) by (destruct print; [discriminate|]; cbn in Epr; lia).
+      destruct (IH (v / 10) false [] Ha eq_refl) as (D & E & HD & Hlen & Hval).
+      exists D. rewrite E, Hdiv. split; [reflexivity|]. split; [exact HD|]. cbn [length] in *. split; [lia|].
+      rewrite Nat.add_0_r in *. replace (S p - length D)%nat with (S (p - length D)) by lia.
+      rewrite pow10_S. rewrite pow10_0 in *. cbn [dec_val fold_left] in *. lia.
+Qed.
+
+Definition unit_char (c : rune) : bool := negb ((c =? 46) || is_digit c).
+
+Lemma span_unit_app u : forall rest, Forall (fun c => unit_char c = true) u ->
+  (rest = [] \/ starts_digit rest = true) -> span_unit (u ++ rest) = (u, rest).
+Proof.
+  induction u as [|c u IH]; intros rest Hu Hr; cbn [app].
+  - destruct Hr as [-> | Hr]; [reflexivity|]. destruct rest as [|c r]; [discriminate|].
+    cbn [starts_digit] in Hr. cbn [span_unit]. rewrite Hr, orb_true_r. reflexivity.
+  - inversion Hu as [|? ? Hc Hu']; subst. cbn [span_unit]. unfold unit_char in Hc. apply negb_true_iff in Hc.
+    rewrite Hc, IH by assumption. reflexivity.
+Qed.
+
+Definition frac_ns (D : str) (unit : N) : N :=
+  if 0 <? dec_val D 0 then dec_val D 0 * unit / 10 ^ N.of_nat (length D) else 0.
+
+(* one rendered term: integer part, optional fraction, unit *)
+Lemma next_term_rendered n D u unit rest :
+  n <= two63 -> Forall is_dec D -> dec_val D 0 <= (two63 - 1) / 10 ->
+  u <> [] -> Forall (fun c => unit_char c = true) u -> unit_of u = Some unit -> n <= two63 / unit ->
+  (rest = [] \/ starts_digit rest = true) ->
+  n * unit + frac_ns D unit <= two63 ->
+  exists ix, next_term (format_uint n ++ frac_text D ++ u ++ rest) = TTerm (n * unit + frac_ns D unit) rest ix.
+Proof.
+  unfold frac_ns. intros Hn HD HDb Hu0 Hu Hunit Hnu Hrest Hv2.
+  set (tail := frac_text D ++ u ++ rest).
+  assert (Htail : starts_digit tail = false).
+  { subst tail. unfold frac_text. destruct D as [|c D']; cbn [nilb app].
+    - destruct u as [|c0 u']; [congruence|]. inversion Hu as [|? ? Hc _]; subst. cbn [app starts_digit].
+      unfold unit_char in Hc. apply negb_true_iff in Hc. apply orb_false_iff in Hc. tauto.
+    - reflexivity. }
+  pose proof (lead_int_digits _ (format_uint_dec n) 0 tail Htail) as Hli. rewrite format_uint_val in Hli.
+  specialize (Hli Hn).
+  destruct (format_uint_head n) as (d & r & E & Hd). unfold next_term. rewrite E in *. cbn [app].
+  change (d :: r ++ tail) with ((d :: r) ++ tail). rewrite Hli.
+  assert (Hdig : is_digit d = true) by (unfold is_digit; lia). rewrite Hdig. rewrite orb_true_r. cbn [negb andb].
+  assert (Hcore : forall f k post, f = dec_val D 0 -> k = N.of_nat (length D) ->
+    exists ix,
+    (if negb true && negb post then TSyntax
+     else let '(u0, s3) := span_unit (u ++ rest) in
+          if nilb u0 then TSyntax
+          else match unit_of u0 with
+               | None => TSyntax
+               | Some unit0 =>
+                   if two63 / unit0 <? n then TBig
+                   else let v1 := n * unit0 in
+                        let v2 := if 0 <? f then v1 + f * unit0 / 10 ^ k else v1 in
+                        if two63 <? v2 then TBig else TTerm v2 s3 ((0 <? f) && negb (unit0 mod 10 ^ k =? 0))
+               end) = TTerm (n * unit + (if 0 <? dec_val D 0 then dec_val D 0 * unit / 10 ^ N.of_nat (length D) else 0)) rest ix).
+  { intros f k post -> ->. cbn [negb andb]. rewrite span_unit_app by assumption.
+    destruct u as [|c0 u']; [congruence|]. cbn [nilb]. rewrite Hunit.
+    assert (E1 : (two63 / unit <? n) = false) by lia. rewrite E1. cbv zeta.
+    destruct (0 <? dec_val D 0) eqn:Ef.
+    - assert (E2 : (two63 <? n * unit + dec_val D 0 * unit / 10 ^ N.of_nat (length D)) = false) by lia.
+      rewrite E2. eauto.
+    - rewrite N.add_0_r in *. assert (E2 : (two63 <? n * unit) = false) by lia. rewrite E2. eauto. }
+  subst tail. unfold frac_text. destruct D as [|c D']; cbn [nilb app].
+  - (* no fraction *)
+    destruct u as [|c0 u']; [congruence|]. cbn [app]. inversion Hu as [|? ? Hc _]; subst.
+    unfold unit_char in Hc. apply negb_true_iff in Hc. apply orb_false_iff in Hc as [Hc46 _]. rewrite Hc46.
+    destruct (Hcore 0 0 false eq_refl eq_refl) as [ix Hix]. exists ix. exact Hix.
+  - change (46 =? 46) with true. cbv iota.
+    assert (Hst : starts_digit (u ++ rest) = false).
+    { destruct u as [|c0 u']; [congruence|]. inversion Hu as [|? ? Hc _]; subst. cbn [app starts_digit].
+      unfold unit_char in Hc. apply negb_true_iff in Hc. apply orb_false_iff in Hc. tauto. }
+    change (c :: D' ++ u ++ rest) with ((c :: D') ++ (u ++ rest)).
+    rewrite (lead_frac_digits _ HD 0 0 (u ++ rest) Hst HDb).
+    destruct (Hcore (dec_val (c :: D') 0) (0 + N.of_nat (length (c :: D'))) (starts_digit ((c :: D') ++ u ++ rest)) eq_refl ltac:(lia)) as [ix Hix].
+    exists ix. exact Hix.
+Qed.
+
+Lemma pd_loop_fuel f1 : forall f2 s d ix, (length s <= f1)%nat -> (length s <= f2)%nat ->
+  pd_loop f1 s d ix = pd_loop f2 s d ix.
+Proof.
+  induction f1 as [|f1 IH]; intros f2 s d ix H1 H2.
+  - destruct s; [destruct f2; reflexivity|cbn in H1; lia].
+  - destruct s as [|c s']; [destruct f2; reflexivity|]. destruct f2 as [|f2]; [cbn in H2; lia|].
+    cbn [pd_loop]. destruct (next_term (c :: s')) as [| |v r ix'] eqn:E; try reflexivity.
+    apply next_term_shrinks in E as [E _]. destruct (two63 <? _); [reflexivity|]. cbn [length] in *. apply IH; lia.
+Qed.
+
+
+Lemma pd_step s v r ix' d ix : next_term s = TTerm v r ix' -> d + v <= two63 ->
+  pd_loop (length s) s d ix = pd_loop (length r) r (d + v) (ix || ix').
+Proof.
+  intros Hnt Hsum. destruct (next_term_shrinks _ _ _ _ Hnt) as [Hlen _].
+  destruct s as [|c w]; [cbn in Hlen; lia|]. cbn [length pd_loop]. rewrite Hnt.
+  rewrite N.mod_small by (unfold two63, two64 in *; lia).
+  assert (E : (two63 <? d + v) = false) by lia. rewrite E.
+  apply pd_loop_fuel; [cbn [length] in Hlen; lia|lia].
+Qed.
+
+(* the loop over one rendered term *)
+Lemma pd_term n D u unit rest d ix :
+  n <= two63 -> Forall is_dec D -> dec_val D 0 <= (two63 - 1) / 10 ->
+  u <> [] -> Forall (fun c => unit_char c = true) u -> unit_of u = Some unit -> n <= two63 / unit ->
+  (rest = [] \/ starts_digit rest = true) ->
+  d + (n * unit + frac_ns D unit) <= two63 ->
+  exists ix', pd_loop (length (format_uint n ++ frac_text D ++ u ++ rest)) (format_uint n ++ frac_text D ++ u ++ rest) d ix
+              = pd_loop (length rest) rest (d + (n * unit + frac_ns D unit)) ix'.
+Proof.
+  intros Hn HD HDb Hu0 Hu Hunit Hnu Hrest Hsum.
+  destruct (next_term_rendered n D u unit rest Hn HD HDb Hu0 Hu Hunit Hnu Hrest ltac:(lia)) as [ix' Hnt].
+  rewrite (pd_step _ _ _ _ d ix Hnt Hsum). eauto.
+Qed.
+
+Lemma pow10_add a b : pow10 (a + b) = pow10 a * pow10 b.
+Proof. unfold pow10. rewrite Nat2N.inj_add, N.pow_add_r. reflexivity. Qed.
+
+Lemma frac_value p D w : (length D <= p)%nat -> dec_val D 0 * pow10 (p - length D) = w ->
+  frac_ns D (pow10 p) = w /\ dec_val D 0 <= w.
+Proof.
+  intros Hl Hw. unfold frac_ns. pose proof (pow10_pos (p - length D)) as Hp.
+  replace p with (length D + (p - length D))%nat at 1 by lia. rewrite pow10_add. fold (pow10 (length D)).
+  split; [|nia]. destruct (0 <? dec_val D 0) eqn:E.
+  - rewrite N.mul_assoc, (N.mul_comm (dec_val D 0)), <- N.mul_assoc, N.mul_comm.
+    rewrite N.div_mul by (pose proof (pow10_pos (length D)); lia). exact Hw.
+  - assert (dec_val D 0 = 0) by lia. nia.
+Qed.
+
+Lemma unit_chars_ok :
+  Forall (fun c => unit_char c = true) [110; 115] /\ Forall (fun c => unit_char c = true) [181; 115] /\
+  Forall (fun c => unit_char c = true) [109; 115] /\ Forall (fun c => unit_char c = true) [115] /\
+  Forall (fun c => unit_char c = true) [109] /\ Forall (fun c => unit_char c = true) [104].
+Proof. repeat split; repeat constructor. Qed.
+
+Lemma format_uint_starts n rest : starts_digit (format_uint n ++ rest) = true.
+Proof. destruct (format_uint_head n) as (d & r & E & Hd). rewrite E. cbn. unfold is_digit. lia. Qed.
+
+(* a sub-second body: one term with a fraction of p digits *)
+Lemma sub_second p u us : (0 < p)%nat -> u <= two63 -> pow10 p <= 1000000000 ->
+  us <> [] -> Forall (fun c => unit_char c = true) us -> unit_of us = Some (pow10 p) ->
+  let '(fr, u') := fmt_frac p u false [] in
+  exists ixf, pd_loop (length (format_uint u' ++ fr ++ us)) (format_uint u' ++ fr ++ us) 0 false = Ok (u, ixf).
+Proof.
+  intros Hp Hu Hpow Hus0 Hus Hunit.
+  destruct (fmt_frac_spec p u false [] ltac:(constructor) eq_refl) as (D & E & HD & Hlen & Hval).
+  rewrite E. cbn [length] in *. rewrite Nat.add_0_r, pow10_0 in *. cbn [dec_val fold_left] in Hval.
+  rewrite N.mul_1_r, N.add_0_r in Hval.
+  destruct (frac_value p D _ Hlen Hval) as [Hfv Hle].
+  pose proof (pow10_pos p) as Hpp. assert (Hm : u mod pow10 p < pow10 p) by (apply N.mod_lt; lia).
+  destruct (pd_term (u / pow10 p) D us (pow10 p) [] 0 false) as [ix' Hpd]; auto.
+  - apply N.div_le_upper_bound; [lia|]. nia.
+  - unfold two63 in *. lia.
+  - apply N.div_le_mono; lia.
+  - rewrite Hfv. rewrite N.add_0_l. pose proof (N.div_mod u (pow10 p) ltac:(lia)). lia.
+  - rewrite app_nil_r in Hpd. rewrite Hpd. cbn [length pd_loop]. rewrite Hfv, N.add_0_l.
+    pose proof (N.div_mod u (pow10 p) ltac:(lia)). exists ix'. f_equal. f_equal. lia.
+Qed.
+
+Lemma frac_ns_nil unit : frac_ns [] unit = 0.
+Proof. reflexivity. Qed.
+
+Ltac u63 := unfold two63 in *; cbn [dec_val fold_left] in *; lia.
+
+Lemma nil_ok : Forall is_dec [] /\ dec_val [] 0 <= (two63 - 1) / 10.
+Proof. split; [constructor|u63]. Qed.
+
+Lemma body_parses u : u <= two63 ->
+  exists ixf, pd_loop (length (dur_body u)) (dur_body u) 0 false = Ok (u, ixf).
+Proof.
+  intros Hu. destruct unit_chars_ok as (Uns & Uus & Ums & Us & Um & Uh). destruct nil_ok as [Nil1 Nil2].
+  unfold dur_body.
+  destruct (u <? 1000000000) eqn:E9.
+  - destruct (u =? 0) eqn:E0.
+    { assert (u = 0) by lia. subst. exists false. vm_compute. reflexivity. }
+    destruct (u <? 1000) eqn:E3.
+    { destruct (pd_term u [] [110; 115] 1 [] 0 false Hu Nil1 Nil2 ltac:(discriminate) Uns eq_refl
+                  ltac:(change (two63 / 1) with two63; exact Hu) (or_introl eq_refl)
+                  ltac:(rewrite frac_ns_nil; lia)) as [ix' H].
+      exists ix'. etransitivity; [exact H|]. rewrite frac_ns_nil. cbn [length pd_loop]. do 2 f_equal; lia. }
+    destruct (u <? 1000000) eqn:E6.
+    + apply (sub_second 3 u [181; 115]); auto; try discriminate; try (change (pow10 3) with 1000; lia).
+    + apply (sub_second 6 u [109; 115]); auto; try discriminate; try (change (pow10 6) with 1000000; lia).
+  - destruct (fmt_frac_spec 9 u false [] ltac:(constructor) eq_refl) as (D & E & HD & Hlen & Hval).
+    rewrite E. cbn [length] in Hlen, Hval. rewrite Nat.add_0_r, pow10_0 in *. cbn [dec_val fold_left] in Hval.
+    rewrite N.mul_1_r, N.add_0_r in Hval.
+    destruct (frac_value 9 D _ Hlen Hval) as [Hfv Hle]. change (pow10 9) with 1000000000 in *.
+    assert (Hm : u mod 1000000000 < 1000000000) by (apply N.mod_lt; lia).
+    assert (HDb : dec_val D 0 <= (two63 - 1) / 10) by (unfold two63; lia).
+    set (secs := u / 1000000000). set (mins := secs / 60). set (hours := mins / 60).
+    set (spart := format_uint (secs mod 60) ++ frac_text D ++ [115]).
+    (* the seconds term, from any accumulator d *)
+    assert (Hs : forall d ix, d + (secs mod 60 * 1000000000 + u mod 1000000000) <= two63 ->
+              exists ix', pd_loop (length spart) spart d ix = Ok (d + (secs mod 60 * 1000000000 + u mod 1000000000), ix')).
+    { intros d ix Hd. subst spart.
+      destruct (pd_term (secs mod 60) D [115] 1000000000 [] d ix ltac:(u63) HD HDb ltac:(discriminate) Us eq_refl
+                  ltac:(u63) (or_introl eq_refl) ltac:(rewrite Hfv; exact Hd)) as [ix' H].
+      exists ix'. etransitivity; [exact H|]. rewrite Hfv. reflexivity. }
+    cbv zeta. fold secs mins hours spart.
+    set (mpart := format_uint (mins mod 60) ++ [109]).
+    assert (Hmt : forall d ix, d + (mins mod 60 * 60000000000 + (secs mod 60 * 1000000000 + u mod 1000000000)) <= two63 ->
+              exists ix', pd_loop (length (mpart ++ spart)) (mpart ++ spart) d ix
+                          = Ok (d + (mins mod 60 * 60000000000 + (secs mod 60 * 1000000000 + u mod 1000000000)), ix')).
+    { intros d ix Hd. subst mpart. rewrite <- app_assoc.
+      destruct (pd_term (mins mod 60) [] [109] 60000000000 spart d ix ltac:(u63) Nil1 Nil2 ltac:(discriminate) Um eq_refl
+                  ltac:(u63) (or_intror (format_uint_starts _ _)) ltac:(rewrite frac_ns_nil; lia)) as [ix' H].
+      destruct (Hs (d + mins mod 60 * 60000000000) ix' ltac:(lia)) as [ix2 H2].
+      exists ix2. etransitivity; [exact H|]. rewrite frac_ns_nil, N.add_0_r. etransitivity; [exact H2|]. do 2 f_equal; lia. }
+    destruct (0 <? mins) eqn:Emin.
+    + destruct (0 <? hours) eqn:Eh.
+      * assert (Hst : starts_digit (mpart ++ spart) = true) by (subst mpart; rewrite <- app_assoc; apply format_uint_starts).
+        destruct (pd_term hours [] [104] 3600000000000 (mpart ++ spart) 0 false
+                    ltac:(unfold hours, mins, secs, two63 in *; lia) Nil1 Nil2 ltac:(discriminate) Uh eq_refl
+                    ltac:(unfold hours, mins, secs, two63 in *; lia) (or_intror Hst)
+                    ltac:(rewrite frac_ns_nil; unfold hours, mins, secs, two63 in *; lia)) as [ix' H].
+        destruct (Hmt (hours * 3600000000000) ix' ltac:(unfold hours, mins, secs, two63 in *; lia)) as [ix2 H2].
+        exists ix2. etransitivity; [exact H|]. rewrite frac_ns_nil, N.add_0_r, N.add_0_l. etransitivity; [exact H2|].
+        do 2 f_equal; unfold hours, mins, secs; lia.
+      * destruct (Hmt 0 false ltac:(unfold hours, mins, secs, two63 in *; lia)) as [ix2 H2].
+        exists ix2. etransitivity; [exact H2|]. do 2 f_equal; unfold hours, mins, secs in *; lia.
+    + destruct (Hs 0 false ltac:(unfold mins, secs, two63 in *; lia)) as [ix2 H2].
+      exists ix2. etransitivity; [exact H2|]. do 2 f_equal; unfold mins, secs in *; lia.
+Qed.
+
+Lemma format_app_head n X : X <> [] -> exists d c r, format_uint n ++ X = d :: c :: r /\ 48 <= d <= 57.
+Proof.
+  intros HX. destruct (format_uint_head n) as (d & r & E & Hd). rewrite E. cbn [app].
+  destruct (r ++ X) as [|c r'] eqn:E2; [apply app_eq_nil in E2 as [_ E2]; congruence|]. eauto.
+Qed.
+
+Lemma dur_body_head u : exists d c r, dur_body u = d :: c :: r /\ 48 <= d <= 57.
+Proof.
+  unfold dur_body. destruct (u <? 1000000000).
+  - destruct (u =? 0); [exists 48, 115, []; split; [reflexivity|lia]|].
+    destruct (u <? 1000); [apply format_app_head; discriminate|].
+    destruct (u <? 1000000).
+    + destruct (fmt_frac 3 u false []) as [fr u']. apply format_app_head. destruct fr; discriminate.
+    + destruct (fmt_frac 6 u false []) as [fr u']. apply format_app_head. destruct fr; discriminate.
+  - destruct (fmt_frac 9 u false []) as [fr secs]. cbv zeta.
+    destruct (0 <? secs / 60).
+    + destruct (0 <? secs / 60 / 60).
+      * apply format_app_head. discriminate.
+      * rewrite <- app_assoc. apply format_app_head. discriminate.
+    + apply format_app_head. destruct fr; discriminate.
+Qed.
+
+(* Duration.String of every int64 nanosecond count parses back to it *)
+Theorem duration_roundtrip_l z : (- Z.of_N two63 <= z < Z.of_N two63)%Z -> parse_duration (dur_string z) = Ok z.
+Proof.
+  intros Hz. set (u := Z.to_N (Z.abs z)). assert (Hu : u <= two63) by (unfold two63 in *; lia).
+  destruct (body_parses u Hu) as [ixf Hb]. destruct (dur_body_head u) as (d & c & r & Eb & Hd).
+  unfold parse_duration, parse_duration_x, dur_string. fold u.
+  destruct (z <? 0)%Z eqn:En.
+  - cbn [dur_sign]. change (45 =? 45) with true. cbv iota.
+    assert (E48 : str_eqb (dur_body u) [48] = false) by (rewrite Eb; cbn; apply andb_false_r).
+    assert (Enil : nilb (dur_body u) = false) by (rewrite Eb; reflexivity).
+    rewrite E48, Enil, Hb. cbn [obind omap fst]. rewrite wrap_signed_neg64 by (unfold two63 in Hu; exact Hu).
+    f_equal. unfold two63 in *. lia.
+  - assert (Hs : dur_sign (dur_body u) = (false, dur_body u)).
+    { rewrite Eb. cbn [dur_sign]. assert (E1 : (d =? 45) = false) by lia. assert (E2 : (d =? 43) = false) by lia.
+      rewrite E1, E2. reflexivity. }
+    rewrite Hs.
+    assert (E48 : str_eqb (dur_body u) [48] = false) by (rewrite Eb; cbn; apply andb_false_r).
+    assert (Enil : nilb (dur_body u) = false) by (rewrite Eb; reflexivity).
+    rewrite E48, Enil, Hb. cbn [obind omap fst].
+    assert (E : (two63 - 1 <? u) = false) by (unfold two63 in *; lia). rewrite E. cbn [omap fst].
+    f_equal. unfold two63 in *. lia.
+Qed.
